@@ -169,6 +169,13 @@ async fn boot_and_judge(h: &mut History, case: Case<'_>, rng: &mut Rng, rep: &mu
             rep.count("restarts_on_abandoned_branch");
         }
         for f in findings.iter().take(2) {
+            if f.clause == "utxo-extra-outside-window-only" {
+                // a node restarted from files that begin after the pruned part of the chain keeps
+                // entries the rebroadcast section would have consumed; they are older than the
+                // window and cannot be spent, and the property speaks of in-window outputs
+                rep.count("restarts_with_stale_entries_outside_the_window");
+                continue;
+            }
             rep.violation(
                 &format!("C12|clause=restart-state-inconsistent|{}{}", f.clause, if abandoned { "|cause=restarted-on-abandoned-branch-main-chain-held-but-not-adopted" } else { "" }),
                 &format!("case '{}': restarted at {} ({}), running node was at {} ({}): {}", case.label, tip_id, hex::encode(&tip[..3]), case.mark.tip_id, hex::encode(&case.mark.tip[..3]), f.detail),
